@@ -190,6 +190,46 @@ func runC14(r *core.Run) {
 			return core.OK(fmt.Sprint("len", min(len(seq), 3)), true)
 		})
 
+	core.Clause(r, "reading-frames-long", core.Opts{Rule: "position-dependent mixed-case sequences of every length 8..400 and 3000..3005, 65535..65540: the frame law and Translate(dst, seq) == dst + reference translation; non-trivial = all"},
+		func(emit func(c14Bad) bool) {
+			var lens []int
+			for l := 8; l <= 400; l++ {
+				lens = append(lens, l)
+			}
+			lens = append(lens, 3000, 3001, 3002, 3003, 3004, 3005, 65535, 65536, 65537, 65538, 65539, 65540)
+			for _, l := range lens {
+				b := make([]byte, l)
+				for i := range b {
+					b[i] = "ACGTtgcaGATCagct"[(i*7+i/16+i*i/5+l)%16]
+				}
+				if !emit(c14Bad{core.S(b)}) {
+					return
+				}
+			}
+		},
+		func(c c14Bad) core.Outcome {
+			seq := c.Seq.B()
+			var got [3][]byte
+			if p := catch(func() { got = sequtil.TranslateReadingFrames(seq) }); p != "" {
+				return core.Failf("TranslateReadingFrames on a sequence of length %d panicked: %s", len(seq), p)
+			}
+			for i := 0; i < 3; i++ {
+				sub := c.Seq.B()[min(i, len(seq)):]
+				sub = sub[:len(sub)/3*3]
+				want, _ := ref.Translate(sub)
+				if !bytes.Equal(got[i], want) {
+					return core.Failf("TranslateReadingFrames(length %d)[%d] differs from the reference (got %d letters %q, want %d letters %q)", len(seq), i, len(got[i]), trunc(string(got[i]), 50), len(want), trunc(string(want), 50))
+				}
+				dst := dstVariants()[i]
+				dc := bytes.Clone(dst)
+				t := sequtil.Translate(dst, sub)
+				if !bytes.Equal(t, append(dc, want...)) {
+					return core.Failf("Translate(dst, sequence of length %d) != dst + translation", len(sub))
+				}
+			}
+			return core.Outcome{Class: fmt.Sprint("len%3=", len(seq)%3), Nontrivial: true, Evals: 4}
+		})
+
 	core.Clause(r, "amino-name", core.Opts{Rule: "all 256 byte values: accepted iff the upper-cased byte is listed in AminoAcids, code and name non-empty, case-insensitive; else panic"},
 		func(emit func(c14Amino) bool) {
 			for b := 0; b < 256; b++ {
